@@ -902,6 +902,35 @@ impl BestSwapPaths<'_> {
     }
 }
 
+/// Verification hooks (additive, `verif` feature only).
+#[cfg(feature = "verif")]
+impl MarketGraph {
+    /// Set the estimated `ln(exchange rate)` of one direction of an inserted market directly,
+    /// bypassing the swap estimation.
+    pub fn verif_set_edge(
+        &mut self,
+        market_token: &Pubkey,
+        from_long: bool,
+        ln_exchange_rate: Option<Decimal>,
+    ) -> bool {
+        let Some(state) = self.markets.get(market_token) else {
+            return false;
+        };
+        let ix = if from_long {
+            state.long_edge
+        } else {
+            state.short_edge
+        };
+        match self.graph.edge_weight_mut(ix) {
+            Some(edge) => {
+                edge.estimated = ln_exchange_rate.map(|ln_exchange_rate| SwapEstimation { ln_exchange_rate });
+                true
+            }
+            None => false,
+        }
+    }
+}
+
 fn distance_to_exchange_rate(d: Decimal) -> Decimal {
     (-d).exp()
 }
